@@ -437,6 +437,13 @@ impl DiskCache {
         drop(state);
 
         // remove files after done with modifying in memory state and releasing lock
+        #[cfg(xet_verif)]
+        let overlapping_item_paths = {
+            // fixed order under simulation: HashSet iteration order must not leak into a replayed run
+            let mut v: Vec<PathBuf> = overlapping_item_paths.into_iter().collect();
+            v.sort();
+            v
+        };
         for path in overlapping_item_paths {
             #[cfg(xet_verif)]
             utils::verif::point("cache:put:remove_overlapped");
